@@ -370,9 +370,26 @@ fn typed_text_messages(ctx: &mut Ctx, rng: &mut Rng, which: Which) {
     }
 }
 
-/// messages without a wire form
-fn no_wire_form(ctx: &mut Ctx, rng: &mut Rng, which: Which) {
-    let ms = [Message::Empty, Message::Corrupt, Message::MsgNotSupported(rtcm_rs::msg::message::MsgNotSupportedT { message_number: rng.below(4096) as u16 })];
+/// messages without a wire form: the three variants, and `MsgNotSupported` carrying every number this build has a
+/// codec for (the decoder never produces those), the 12-bit corners, numbers beyond 12 bits and random ones
+fn no_wire_form(ctx: &mut Ctx, rng: &mut Rng, which: Which, w: usize, nw: usize) {
+    use rtcm_rs::msg::message::MsgNotSupportedT;
+    let mut ms = vec![Message::Empty, Message::Corrupt];
+    let mut numbers: Vec<u16> = gen::supported_numbers().to_vec();
+    numbers.extend_from_slice(&[0, 1, 1000, 1001, 1004, 1230, 1231, 4000, 4094, 4095, 4096, 4097, 8191, 32767, 32768, 65535]);
+    for &n in gen::supported_numbers() {
+        numbers.push(n.wrapping_add(4096));
+        numbers.push(n.wrapping_sub(1));
+        numbers.push(n + 1);
+    }
+    for (i, n) in numbers.iter().enumerate() {
+        if i % nw == w {
+            ms.push(Message::MsgNotSupported(MsgNotSupportedT { message_number: *n }));
+        }
+    }
+    for _ in 0..64 {
+        ms.push(Message::MsgNotSupported(MsgNotSupportedT { message_number: rng.below(65536) as u16 }));
+    }
     for m in ms.iter() {
         ctx.count("no_wire_form_messages");
         judge_message(ctx, m, which, "no_wire_form");
@@ -391,7 +408,7 @@ pub fn run(p: &Params, which: Which) -> Outcome {
         // both properties draw the same stream: the salt does not depend on `which`
         let mut rng = Rng::derive(seed, "codec", w as u64);
         let mut tpl = Templates::default();
-        no_wire_form(ctx, &mut rng, which);
+        no_wire_form(ctx, &mut rng, which, w, nw);
         for i in 0..per {
             if ctx.saturated() {
                 ctx.count("stopped_early_after_20000_violations");
